@@ -8,7 +8,9 @@
     model's state. *)
 From Coq Require Import List NArith ZArith Arith Bool.
 Import ListNotations.
-Require Import MS.Model.WalLoop MS.Generated.Src_sched MS.Corr.Common.
+Require Export MS.Model.WalLoop.
+Require Import MS.Generated.Src_sched MS.Corr.Common MS.Base.Hex.
+From Coq.Strings Require Import Byte.
 
 Inductive ev :=
 | L (l : label)
@@ -44,20 +46,85 @@ Fixpoint run_ev (s : st) (es : list ev) : option st :=
   | e :: r => if obs_ok s e then run_ev s r else None
   end.
 
-Record case := { k_ks : list nat; k_evs : list ev }.
+(** Transport: the harness prints the event sequence as one hexadecimal literal (Base/Hex.unhexp), one
+    opcode byte per event followed by its one-byte arguments; parsing a Gallina list of a thousand
+    constructors per case costs seconds, a number literal nothing.  A malformed stream decodes to
+    [None] and the case disagrees. *)
+Definition nb (b : byte) : nat := N.to_nat (Byte.to_N b).
+Definition bb (n : nat) : bool := negb (n =? 0).
+
+Fixpoint take_pairs (n : nat) (l : list nat) : option (list (nat * nat) * list nat) :=
+  match n with
+  | 0 => Some ([], l)
+  | S n' => match l with
+            | a :: b :: r => match take_pairs n' r with Some (p, r') => Some ((a, b) :: p, r') | None => None end
+            | _ => None
+            end
+  end.
+Fixpoint take_tgs (n : nat) (l : list nat) : option (list (list (nat * nat)) * list nat) :=
+  match n with
+  | 0 => Some ([], l)
+  | S n' => match l with
+            | c :: r => match take_pairs c r with
+                        | Some (g, r') => match take_tgs n' r' with Some (t, r'') => Some (g :: t, r'') | None => None end
+                        | None => None
+                        end
+            | [] => None
+            end
+  end.
+
+Fixpoint decode (fuel : nat) (l : list nat) : option (list ev) :=
+  match fuel with
+  | 0 => match l with [] => Some [] | _ => None end
+  | S fuel' =>
+      let k e r := match decode fuel' r with Some es => Some (e :: es) | None => None end in
+      match l with
+      | [] => Some []
+      | 0 :: w :: r => k (L (Enq w)) r
+      | 1 :: w :: b :: r => k (L (RdHave w (bb b))) r
+      | 2 :: w :: b :: r => k (L (RdLen w (bb b))) r
+      | 3 :: w :: r => k (L (SendTok w)) r
+      | 4 :: w :: r => k (L (InlFl w)) r
+      | 5 :: r => k (L LStart) r
+      | 6 :: r => k (L LRecv) r
+      | 7 :: r => k (L LTick) r
+      | 8 :: r => k (L LCkpt) r
+      | 9 :: r => k (L LFl) r
+      | 10 :: r => k (L LAckL) r
+      | 11 :: r => k (L EnvShut) r
+      | 12 :: r => k (L LShut) r
+      | 13 :: r => k (L LShutC) r
+      | 16 :: w :: b :: r => k (ORet w (bb b)) r
+      | 17 :: n :: r => match take_tgs n r with Some (t, r') => k (OWal t) r' | None => None end
+      | 18 :: w :: i :: b :: r => k (OVis w i (bb b)) r
+      | 19 :: n :: r => k (OFch n) r
+      | 20 :: n :: r => k (OWch n) r
+      | 21 :: b :: r => k (OHave (bb b)) r
+      | _ => None
+      end
+  end.
+
+Record case := { k_ks : list nat; k_enc : positive }.
+Definition k_evs_opt (k : case) : option (list ev) :=
+  let l := map nb (unhexp (k_enc k)) in decode (length l) l.
+Definition k_evs (k : case) : list ev := match k_evs_opt k with Some es => es | None => [] end.
 
 Definition cap : N := Z.to_N WriteChannelCommandDepth.
 Definition start (k : case) : st := init (k_ks k) cap cap.
 
 Definition agrees (k : case) : bool :=
-  match run_ev (start k) (k_evs k) with Some _ => true | None => false end.
+  match k_evs_opt k with
+  | Some es => match run_ev (start k) es with Some _ => true | None => false end
+  | None => false
+  end.
 
 Definition labels_of (es : list ev) : list label :=
   flat_map (fun e => match e with L l => [l] | _ => [] end) es.
 
 (** the guard of C07_guarded, on the recorded schedule *)
 Definition in_domain (k : case) : bool :=
-  let ls := labels_of (k_evs k) in forallb steady ls && forallb no_early ls.
+  let ls := labels_of (k_evs k) in
+  match ls with [] => false | _ => forallb steady ls && forallb no_early ls end.
 
 (** the property on the model: after every step of the schedule every returned writer is flushed *)
 Fixpoint always_ok (s : st) (ls : list label) : bool :=
